@@ -543,6 +543,9 @@ func runCase(c *fw.Ctx, i int) {
 				if pspec.Flavour == "elements" {
 					pspec.Flavour = "both"
 				}
+				if i%4 == 1 {
+					pspec.NoHeadings = true // ends outside any section, where the next document begins
+				}
 				prev, _ := buildDoc(c.Rand("doc", i, "prevcontent"), pspec)
 				ck := rag.NewChunker()
 				ck.Chunk(prev)
